@@ -6,7 +6,7 @@ from collections import OrderedDict
 SKIP = ("parent", "scope", "__deepcopy__")
 
 
-def canon_ast(node, _depth=0):
+def canon_ast(node, _depth=0, skip=SKIP):
     """Structural dump: node class names, every field except parent/scope/__deepcopy__,
     ordered containers in order."""
     if _depth > 400:
@@ -18,15 +18,15 @@ def canon_ast(node, _depth=0):
     if isinstance(node, enum.Enum):
         return ("enum", type(node).__name__, node.name)
     if isinstance(node, (list, tuple)):
-        return tuple(canon_ast(x, _depth + 1) for x in node)
+        return tuple(canon_ast(x, _depth + 1, skip) for x in node)
     if isinstance(node, (set, frozenset)):
-        return ("set",) + tuple(sorted((canon_ast(x, _depth + 1) for x in node), key=repr))
+        return ("set",) + tuple(sorted((canon_ast(x, _depth + 1, skip) for x in node), key=repr))
     if isinstance(node, dict):
-        return ("dict",) + tuple((canon_ast(k, _depth + 1), canon_ast(v, _depth + 1)) for k, v in node.items())
+        return ("dict",) + tuple((canon_ast(k, _depth + 1, skip), canon_ast(v, _depth + 1, skip)) for k, v in node.items())
     d = getattr(node, "__dict__", None)
     if d is not None:
         return (type(node).__name__,) + tuple(
-            (k, canon_ast(v, _depth + 1)) for k, v in d.items() if k not in SKIP
+            (k, canon_ast(v, _depth + 1, skip)) for k, v in d.items() if k not in skip
         )
     return ("obj", type(node).__name__, repr(node))
 
@@ -35,7 +35,7 @@ def digest(obj):
     return hashlib.sha256(repr(obj).encode()).hexdigest()[:24]
 
 
-def tree_digest(tree):
+def tree_digest(tree, skip=SKIP):
     if tree is None:
         return None
-    return digest(canon_ast(tree))
+    return digest(canon_ast(tree, 0, skip))
